@@ -281,20 +281,14 @@ func c13(c *core.Ctx) {
 		})
 		ok := false
 		if evalCall != nil && opCall != nil {
-			// ops not reachable from the failure edge of the condition
-			edges, okE := fl.FailEdgesOfCall(f.Decl.Body, evalCall)
-			ok = okE
-			for e := range edges {
-				if fl.ReachFromEdge(e, nil, core.ContainsNode(opCall)) {
-					ok = false
-				}
-			}
-			// and the condition check precedes the loop textually on the path (evaluate is before applyOp)
-			le, lo := fl.MustLocate(evalCall), fl.MustLocate(opCall)
+			// every path from the condition evaluation to an op passes an edge establishing err == nil
+			bad, _ := fl.RunsWithoutSuccess(f.Decl.Body, evalCall, opCall)
+			ok = !bad
+			// and the condition is not evaluated after an op ran
+			lo := fl.MustLocate(opCall)
 			if r, _ := fl.CanReach(lo, nil, nil, core.ContainsNode(evalCall)); r {
 				ok = false
 			}
-			_ = le
 		}
 		rA.Check(ok, f.Key+":condition-first", f.Decl.Pos(), "no op runs when the condition failed", "ops can run although the condition was not met (or before it is evaluated)")
 		nilBody := true
